@@ -1,13 +1,79 @@
 /-
   Props.C01 — "MPQ build→open round-trip returns every file bit-identically".
-  Carrier theorems, one per mechanism in the property's anchor list, about Model.Mpq (the MPQ reader/writer
-  model that the harness ties to the Rust builder and reader in both directions).  The composition
-  "read (open (build files)) = files" over whole archives is NOT proved as one statement (see DESIGN.md): it is
-  established per run by the two-way correspondence.  Third-party codecs are a table.
+  About Model.Mpq (the MPQ reader/writer model that the harness ties to the Rust builder and reader in both
+  directions): the WHOLE-ARCHIVE composition `archive_roundtrip` / `archive_roundtrip_spelling` / `archive_absent`
+  (classic hash/block tables, header V1/V2, every layout × encryption mode), and below them the carrier theorems,
+  one per mechanism in the property's anchor list.  Third-party codecs are a table.
 -/
 import WowVerif.Lemmas.C01
+import WowVerif.Lemmas.C01Whole
 namespace Wv.C01
 open Wv Wv.Mpq
+
+/-! ## the whole archive -/
+
+/-- BUILD → OPEN → READ: for every file set with pairwise different name-hash pairs that fits the hash table, every
+    layout the writer chooses (single unit / plain sectors / sectors behind an offset table), every encryption mode
+    (none / name key / position-adjusted key) and every stored form of every unit that the codec table maps back
+    (raw, or strictly shorter and admitted by the ratio heuristics), reading the i-th name from the written archive
+    returns the i-th content. Header versions V1 and V2; archive below 4 GiB. -/
+theorem archive_roundtrip (c : Conv) (codec : Codec) (version shift hashSize : Nat) (files : List FileSpec)
+    (hv : version ≤ 1) (hshift : shift < 2 ^ 16)
+    (hd : DistinctPairs (files.map (·.name))) (hle : files.length ≤ hashSize) (hhs : hashSize < 0xFFFFFFFE)
+    (hok : ∀ f ∈ files, FileOK c codec (512 * 2 ^ shift) f ∧ f.data.length < 2 ^ 32)
+    (hsize : (writeArchive c version shift hashSize files).length < 2 ^ 32)
+    (i : Nat) (hi : i < files.length) :
+    readFile c codec (writeArchive c version shift hashSize files) files[i].name = .ok files[i].data :=
+  Mpq.archive_roundtrip c codec version shift hashSize files hv hshift hd hle hhs hok hsize i hi
+
+/-- a lookup depends on the name only through its case- and slash-folded form (the code's conventions) -/
+theorem readFile_spelling (codec : Codec) (arch s₁ s₂ : Bytes) (h : s₁.map Model.fold = s₂.map Model.fold) :
+    readFile codeConv codec arch s₁ = readFile codeConv codec arch s₂ := by
+  unfold readFile
+  split
+  · rfl
+  · split
+    · rw [Mpq.findBlock_spelling _ s₁ s₂ h]
+      split
+      · rfl
+      · split
+        · unfold readEntry
+          simp only [Mpq.fileKey_spelling _ s₁ s₂ h]
+        · rfl
+    · rfl
+
+/-- … UNDER EVERY SPELLING of its name that differs only in ASCII case or slash direction -/
+theorem archive_roundtrip_spelling (codec : Codec) (version shift hashSize : Nat) (files : List FileSpec)
+    (hv : version ≤ 1) (hshift : shift < 2 ^ 16)
+    (hd : DistinctPairs (files.map (·.name))) (hle : files.length ≤ hashSize) (hhs : hashSize < 0xFFFFFFFE)
+    (hok : ∀ f ∈ files, FileOK codeConv codec (512 * 2 ^ shift) f ∧ f.data.length < 2 ^ 32)
+    (hsize : (writeArchive codeConv version shift hashSize files).length < 2 ^ 32)
+    (i : Nat) (hi : i < files.length) (s : Bytes) (hs : s.map Model.fold = files[i].name.map Model.fold) :
+    readFile codeConv codec (writeArchive codeConv version shift hashSize files) s = .ok files[i].data := by
+  rw [readFile_spelling codec _ s files[i].name hs]
+  exact Mpq.archive_roundtrip codeConv codec version shift hashSize files hv hshift hd hle hhs hok hsize i hi
+
+/-- NEVER ADDED ⇒ NOT FOUND (never another file's content): a name whose (hash A, hash B) pair differs from that of
+    every added name is reported as not found -/
+theorem archive_absent (c : Conv) (codec : Codec) (version shift hashSize : Nat) (files : List FileSpec)
+    (hv : version ≤ 1) (hshift : shift < 2 ^ 16)
+    (hd : DistinctPairs (files.map (·.name))) (hle : files.length ≤ hashSize) (hhs : hashSize < 0xFFFFFFFE)
+    (hok : ∀ f ∈ files, f.data.length < 2 ^ 32)
+    (hsize : (writeArchive c version shift hashSize files).length < 2 ^ 32)
+    (name : Bytes) (hname : ∀ f ∈ files, ¬ (pairA f.name = pairA name ∧ pairB f.name = pairB name)) :
+    readFile c codec (writeArchive c version shift hashSize files) name = .error "notfound" :=
+  Mpq.archive_absent c codec version shift hashSize files hv hshift hd hle hhs hok hsize name hname
+
+/-! non-vacuity of the whole-archive theorems: a concrete encrypted file "a.txt" in a V1 archive with 4 KiB sectors
+    meets every hypothesis, and the kernel evaluates the read under another spelling ("A.TXT") to the content -/
+def demoFile : FileSpec := ⟨[97, 46, 116, 120, 116], [1, 2, 3, 4, 5, 6, 7], 1, []⟩
+example : (writeArchive codeConv 0 3 4 [demoFile]).length < 2 ^ 32 := by decide +kernel
+example : FileOK codeConv [] (512 * 2 ^ 3) demoFile where
+  enc := by decide
+  single := fun _ => Or.inl rfl
+  multi := fun h => absurd (by decide) h
+example : (readFile codeConv [] (writeArchive codeConv 0 3 4 [demoFile]) [65, 46, 84, 88, 84]).toOption =
+    some [1, 2, 3, 4, 5, 6, 7] := by decide +kernel
 
 /-- INSERTION PROBING MIRRORS LOOKUP PROBING (builder.rs:add_to_hash_table ↔ tables/hash.rs:find_file) -/
 theorem probe_mirror (ht : List (List Nat)) (a b blk : Nat) (seq : List Nat)
